@@ -21,7 +21,7 @@ def make_cases(tier, profile, judges=('no_panic', 'inv', 'msg_delivery'), verbs=
                 partial = {}
                 nprefix = max([len(x) - len(x.lstrip('~&@%+')) for x in t.split(',')])
                 if '#x' in t: split = ['mem_bob_#x', 'mem_carol_#x']
-                if nprefix >= 3:
+                if nprefix >= 3 and '#x' in t:
                     partial = {'mem_carol_#x': False}; split = ['mem_bob_#x', 'mem_alice_#x', 'founder_bob_#x', 'protected_bob_#x', 'operator_bob_#x']
                 if t.count(',') >= 1 and '#x' in t:
                     partial = {'mem_carol_#x': False, 'mem_carol_&y': False}; split = ['mem_bob_#x', 'mem_alice_#x']
